@@ -63,6 +63,7 @@ RULES = [
     ("R16", None, None, "`for X in V {` (V a Vec of Copy elements, by value) -> same index loop with `let X = V[X__k];`"),
     ("R18", None, None, "`for X in A..B {` whose body uses `continue` -> `let mut X__k = A; while X__k < B { let X = X__k; X__k += 1;`"),
     ("R4", re.compile(r'\bf64::INFINITY\b'), 'f64_infinity()', "`f64::INFINITY` -> `f64_infinity()`"),
+    ("R20", re.compile(r'\b(?:std::)?f64::(EPSILON|MAX|MIN|MIN_POSITIVE|NAN|NEG_INFINITY)\b'), r'f64_const_\1()', "`f64::EPSILON` (MAX, MIN, MIN_POSITIVE, NAN, NEG_INFINITY) -> `f64_const_EPSILON()`: an uninterpreted constant"),
     ("R5", re.compile(r'\bfor \(([A-Za-z_]\w*), ([A-Za-z_]\w*)\) in ([A-Za-z_]\w*)\.iter\(\)\.enumerate\(\)\.skip\((\d+)\) \{'),
      r'for \1 in \4..\3.len() { let \2 = &\3[\1];', "`for (i, x) in v.iter().enumerate().skip(k) {` -> `for i in k..v.len() { let x = &v[i];`"),
     ("R6a", re.compile(r'\b([A-Za-z_]\w*)\.extend\(([A-Za-z_]\w*)\.into_iter\(\)\.skip\((\d+)\)\);'), r'vec_extend_skip(&mut \1, \2, \3);', "`a.extend(b.into_iter().skip(k))` -> `vec_extend_skip(&mut a, b, k)`"),
@@ -134,7 +135,8 @@ def apply_r9(text):
             continue
         x, lo_e, incl, hi_e = mm.group(1), mm.group(2).strip(), mm.group(3), mm.group(4).strip()
         cmp_op = "<=" if incl else "<"
-        rep = "let mut %s__k: usize = %s; while %s__k %s %s { let %s = %s__k; %s__k += 1;" % (x, lo_e, x, cmp_op, hi_e, x, x, x)
+        # the marker lets a `loop for#N` annotation written for the `for` form still apply (see _adapt_r18)
+        rep = "let mut %s__k: usize = %s; while /*@R18|%s|%s|%s|%s*/ %s__k %s %s { let %s = %s__k; %s__k += 1;" % (x, lo_e, x, lo_e, hi_e, cmp_op, x, cmp_op, hi_e, x, x, x)
         edits.append((mm.start(), mm.end(), rep))
         counts["R18"] += 1
     for a2, b2, rep in sorted(edits, reverse=True):
@@ -178,6 +180,24 @@ def _impl_blocks(s):
         o = s.body_open(mm.end())
         out.append((mm.start(), o, s.match_brace(o)))
     return out
+
+
+def _adapt_r18(body, r18):
+    """A loop annotation written for `for x in A..B` applied to the R18 form `while x__k < B`: the loop variable at the loop
+    head is the counter `x__k`; the range facts Verus supplies implicitly for `for` and the termination measure are added."""
+    x, lo_e, hi_e, op = r18
+    k = x + "__k"
+    body = re.sub(r'\b%s\b' % re.escape(x), k, body)
+    hi_s = hi_e if op == "<" else "(%s) + 1" % hi_e
+    rng = " %s <= %s, %s <= %s || %s == %s," % (lo_e, k, k, hi_s, k, lo_e)
+    m = re.search(r'\binvariant\b(?!_)', body)
+    if m:
+        body = body[:m.end()] + rng + body[m.end():]
+    else:
+        body = "            invariant" + rng + "\n" + body
+    if not re.search(r'\bdecreases\b', body):
+        body = body.rstrip('\n') + "\n            decreases (%s) - %s,\n" % (hi_s, k)
+    return body
 
 
 def _resolve(s, ann):
@@ -284,7 +304,9 @@ def _resolve(s, ann):
                 return [(st, st, '\n' + body, True)]
             return [(st, st, body, True)]
         edits = []
-        if ann.label:
+        if l.get('r18'):
+            body = _adapt_r18(body, l['r18'])
+        if ann.label and not l.get('r18'):
             hm = re.match(r'for\s+(.+?)\s+in\s+', text[l['kw']:l['open']], re.S)
             if not hm:
                 raise ExtractError("lost anchor: %s: cannot label loop header" % ann.id)
